@@ -112,21 +112,26 @@ def struct_names(t, S, acc=None):
     return acc
 
 
-def subst(t, m):
+def subst(t, m, S=None):
+    """replace type variables; with `S`, `@owned` flags of function inputs that became copyable are
+    removed (`int @owned` is not a valid annotation)"""
     k = t[0]
     if k == "v":
         return m.get(t[1], t)
     if k == "b":
         return t
     if k == "tuple":
-        return ["tuple", [subst(x, m) for x in t[1]]]
+        return ["tuple", [subst(x, m, S) for x in t[1]]]
     if k in ("array", "farr"):
-        return [k, subst(t[1], m), t[2]]
+        return [k, subst(t[1], m, S), t[2]]
     if k == "opt":
-        return ["opt", subst(t[1], m)]
+        return ["opt", subst(t[1], m, S)]
     if k == "st":
-        return ["st", t[1], [subst(x, m) for x in t[2]]]
-    return ["fn", [[subst(x, m), o] for x, o in t[1]], subst(t[2], m)]
+        return ["st", t[1], [subst(x, m, S) for x in t[2]]]
+    ins = [[subst(x, m, S), o] for x, o in t[1]]
+    if S is not None:
+        ins = [[x, o and not oracle(x, S)[0]] for x, o in ins]
+    return ["fn", ins, subst(t[2], m, S)]
 
 
 def ann(t):
@@ -488,7 +493,7 @@ def make_strategies():
 
     MODES_AFFINE = ["recv_unused"] * 4 + ["make_unused", "make_unused", "make_stmt", "expr_unused", "expr_stmt",
                                           "recv_returned", "recv_sunk", "recv_borrowed", "recv_borrowed",
-                                          "make_returned", "make_sunk", "cond_sunk", "cond_sunk"]
+                                          "make_returned", "make_sunk"]
     MODES_COPY = ["recv_unused", "make_unused", "make_stmt", "expr_unused"]
 
     def prog_case(mods):
@@ -497,8 +502,9 @@ def make_strategies():
             mi = draw(st.integers(0, len(mods) - 1))
             M = mods[mi]
             slots = []
-            for _ in range(draw(st.sampled_from([1, 1, 2, 3]))):
-                affine = draw(st.integers(0, 4)) > 0
+            cond = draw(st.integers(0, 6)) == 0  # one value, consumed on one branch only
+            for _ in range(1 if cond else draw(st.sampled_from([1, 1, 2, 3]))):
+                affine = cond or draw(st.integers(0, 4)) > 0
                 pool = [v for v in LEGACY_VARS if bound_of(v)[1] and (affine or bound_of(v)[0])]
                 vars_ = draw(st.lists(st.sampled_from(pool), max_size=2, unique=True))
                 d = draw(st.sampled_from([0, 1, 2, 2, 3, 4])) if vars_ else draw(st.sampled_from([1, 2, 2, 3, 4]))
@@ -511,7 +517,14 @@ def make_strategies():
                         t = ["array", inner, draw(st.integers(0, 2))]
                 else:
                     t = gen(draw, M.structs, M.S, vars_, d, (True, True))
-                mode = draw(st.sampled_from(MODES_AFFINE if affine else MODES_COPY))
+                mode = "cond_sunk" if cond else draw(st.sampled_from(MODES_AFFINE if affine else MODES_COPY))
+                if not cond and draw(st.integers(0, 3)) == 0:
+                    # a value whose only non-copyable / droppable-only part is a type variable
+                    v = ["v", draw(st.sampled_from(["TA0", "TA1"] if affine else ["TB0", "TB1"]))]
+                    t = draw(st.sampled_from([v, ["tuple", [v, t if depth(t) < MAX_DEPTH else ["b", "int"]]],
+                                              ["opt", v]]))
+                    mode = draw(st.sampled_from(["recv_unused"] * 3 + (
+                        ["recv_returned", "recv_sunk", "recv_borrowed"] if affine else [])))
                 slots.append({"ty": t, "mode": mode})
             return mi, slots
         return strat()
@@ -553,22 +566,45 @@ def expr_of(t, S):
     return None
 
 
+def constructible(t, S):
+    """nearest type that `expr_of` can build: same shape, unconstructible parts replaced by parts of
+    an equal or more permissive copy/drop class (so parameter bounds stay satisfied)"""
+    k = t[0]
+    if k == "b":
+        return t if t[1] in ("int", "float", "bool", "str") else ["b", "int"]
+    if k in ("v", "fn"):
+        return ["b", "int"]
+    if k == "tuple":
+        return ["tuple", [constructible(x, S) for x in t[1]]]
+    if k == "array":
+        return ["array", constructible(t[1], S), max(t[2], 1)]
+    if k == "farr":
+        return ["tuple", [constructible(t[1], S)]]
+    if k == "opt":
+        return ["opt", constructible(t[1], S)]
+    r = ["st", t[1], [constructible(x, S) for x in t[2]]]
+    return r if expr_of(r, S) is not None else ["tuple", r[2]]
+
+
 def normalise_slots(slots, S):
-    """make every slot's mode applicable to its type (deterministic fallbacks)"""
+    """make every slot's mode applicable to its type (deterministic adjustments)"""
     out = []
     multi = len(slots) > 1
     n_expr = 0
     for s in slots:
         t, mode = s["ty"], s["mode"]
+        was_affine = not oracle(t, S)[0]
         if mode == "cond_sunk" and multi:
             mode = "recv_sunk"
+        if mode.startswith("expr") and n_expr:
+            mode = "make" + mode[4:]
         if mode.startswith("expr"):
-            if expr_of(t, S) is None or n_expr:
-                mode = "make" + mode[4:]
-            else:
-                n_expr += 1
-        if mode.startswith("make") and has_var(t):
-            mode = "recv" + mode[4:] if mode != "make_stmt" else "recv_unused"
+            n_expr += 1
+            t = constructible(t, S)
+        elif mode.startswith("make") and has_var(t):  # a declared make() cannot bind type variables
+            t = subst(t, {v: ["b", "int"] for v in LEGACY_VARS}, S)
+        if was_affine and oracle(t, S)[0]:
+            t = ["array", t if depth(t) < MAX_DEPTH else ["b", "int"], 1]
         out.append({"ty": t, "mode": mode})
     return out
 
@@ -829,7 +865,7 @@ def worker(ctx):
         ctx.case(["p", structs, slots], "some" in wants, labels=labels)
         if "some" in wants:
             ctx.sample("P:" + "+".join(sorted(e["mode"] for e in exp)),
-                       {"program": src[src.index("TB1 = ") + 64:][-1200:],
+                       {"program": src.split("TB1 = guppy.type_var", 1)[1].split("\n", 1)[1].strip()[-1200:],
                         "expect": [[e["mode"], e["want"]] for e in exp]})
         for b, d in res:
             ctx.violation(b, {"kind": "prog", "structs": structs, "slots": slots}, d)
